@@ -23,6 +23,13 @@ adapter modules are replaced by a fake cluster (class Cluster) that
         report of every queried job in the schedulers' documented format (printers of
         harness/props/c16.py), choosing a scheduler state code the documentation maps
         to the wanted Maestro state, and the exit codes that produce NOJOBS / ERROR,
+        the NAME column of squeue / sacct is the job name the scheduler was GIVEN: the
+        `#SBATCH --job-name=` (`#BSUB -J`) line of the script file handed to sbatch / bsub,
+        unquoted the way sbatch does, cut to the column width of the format the adapter
+        asks for (squeue %.8j: 8, no mark; sacct jobname: 10, a longer name ends in '+') and
+        printed verbatim -- blanks included.  Step names carry blanks, runs of blanks,
+        quotes, parentheses and long tails (gen_opts "names"), so a header that stops
+        neutralising the name shifts the white-space separated columns the adapter reads,
   (iii) answers scancel / bkill,
   (iv)  "executes" a local script (exit code = the scripted submission outcome).
 
@@ -113,7 +120,9 @@ def gen_opts(rng, backend):
          "base_id": rng.choice([7, 96, 998, 4212, 99990, 1234567, 87654321]),
          "queue": rng.choice(["pbatch", "pdebug", "batch", "normal", "q2"]),
          "reservation": rng.choice(["", "", "", "", "dat1"]),
-         "shell": rng.choice(["/bin/bash", "/bin/bash", "/bin/sh"])}
+         "shell": rng.choice(["/bin/bash", "/bin/bash", "/bin/sh"]),
+         # step names: what the YAML `name:` key may hold (any non-empty string); see step_name
+         "names": rng.choice(["plain", "blank", "blank", "tab", "punct", "mixed", "mixed"])}
     if backend == "slurm":
         # multi-cluster / federated Slurm (SLURM_CLUSTERS, -M): sbatch names the cluster in its answer
         o["federated"] = rng.random() < 0.3
@@ -142,6 +151,57 @@ class Proc(P.FakeProc):
         pass
 
     terminate = kill
+
+
+# Step names are "n<i>" + a tail.  Blanks are what SlurmScriptAdapter.get_header / LSFScriptAdapter.get_header
+# replace by '_' before the name reaches the scheduler; the other tails must pass through unharmed.
+NAME_TAILS = {
+    "plain": [""],
+    "blank": ["", " sim", " a b", "  x", " run 1 of 2", " ", "_ok", " long step name", " s"],
+    "punct": ["", "-a_long_step_name", ".v2", "(1)", "'q'", " (a;b)&", "=x", "%j", " $HOME", ",k"],
+    # white space other than U+0020: before fix bee21ab the Slurm header kept it and the name column of squeue /
+    # sacct then split in two (witness corpus/exec_real/slurm_tab_in_step_name.json)
+    "tab": ["\tx", " a\tb", "\x0bv", "\xa0n", "\u2003w", "\x0cf"],
+}
+NAME_TAILS["mixed"] = NAME_TAILS["blank"] + NAME_TAILS["punct"] + NAME_TAILS["tab"]
+
+
+def step_names(opts, n):
+    """the step names of a history (a function of the cluster options, so a stored case replays)"""
+    mode = opts.get("names", "plain")
+    if isinstance(mode, list):          # explicit tails (witnesses)
+        return ["n%d%s" % (i, mode[i % len(mode)]) for i in range(n)]
+    rr = random.Random(opts["seed"] + 2)
+    return ["n%d%s" % (i, rr.choice(NAME_TAILS[mode])) for i in range(n)]
+
+
+def _node_in(text):
+    m = re.match(r"n(\d+)(?!\d)", text)
+    return int(m.group(1)) if m else None
+
+
+def job_name_of(path, prog):
+    """the job name the scheduler takes from the submitted script: the last `#SBATCH --job-name=` / `-J`
+    (`#BSUB -J`) directive before the first command, unquoted like a shell word; default = the script's name"""
+    name = os.path.basename(path)
+    pat = (r"#SBATCH\s+(?:--job-name(?:=|\s+)|-J\s*)(.*)$" if prog == "sbatch" else r"#BSUB\s+-J\s*(.*)$")
+    try:
+        with open(path, encoding="utf-8", newline="\n") as f:
+            for line in f:
+                line = line.rstrip("\n")
+                if line.strip() and not line.startswith("#"):
+                    break
+                m = re.match(pat, line)
+                if m:
+                    try:
+                        words = shlex.split(m.group(1))
+                    except ValueError:
+                        words = [m.group(1)]
+                    if words:
+                        name = words[0]
+    except OSError:
+        pass
+    return name
 
 
 def _positional(args, valued):
@@ -216,9 +276,11 @@ class Cluster:
         return self.subs.pop(0) if self.subs else True
 
     # -- the process layer ----------------------------------------------------
-    def handle(self, cmd, text):
+    def handle(self, cmd, text, shell=True):
         try:
-            toks = [str(t) for t in cmd] if isinstance(cmd, (list, tuple)) else shlex.split(str(cmd))
+            # a string run without a shell is the program's path, blanks and all
+            toks = [str(t) for t in cmd] if isinstance(cmd, (list, tuple)) else \
+                (shlex.split(str(cmd)) if shell else [str(cmd)])
         except ValueError:
             toks = str(cmd).split()
         prog = os.path.basename(toks[0]) if toks else ""
@@ -240,7 +302,7 @@ class Cluster:
             self.cancel_seen.extend(args)
             ok = self.pin is None or self.pin.get("cancel_ok", True)
             return Proc("", 0 if ok else 1, text, err="" if ok else "%s: error: Invalid job id specified" % prog)
-        if re.match(r"n\d+\..*sh$", prog):
+        if _node_in(prog) is not None and prog.endswith(".sh"):
             return self.do_local(toks[0], text)
         self.other.append(" ".join(toks))
         return Proc("", 127, text, err="%s: command not found" % prog)
@@ -249,11 +311,9 @@ class Cluster:
         """node and Main/Restart from the script path on the command line (the working directory
         option is the fallback when no script is named)"""
         path = script[0] if script else ""
-        m = re.match(r"n(\d+)\.", os.path.basename(path))
-        x = int(m.group(1)) if m else None
+        x = _node_in(os.path.basename(path))
         if x is None and flag in toks and toks.index(flag) + 1 < len(toks):
-            m = re.match(r"n(\d+)$", os.path.basename(toks[toks.index(flag) + 1].rstrip("/")))
-            x = int(m.group(1)) if m else None
+            x = _node_in(os.path.basename(toks[toks.index(flag) + 1].rstrip("/")))
         kind = "Restart" if ".restart." in os.path.basename(path) else "Main"
         return path, x, kind
 
@@ -280,14 +340,16 @@ class Cluster:
             out = "Job <%s> is submitted to queue <%s>." % (jid, self.opts["queue"])
         out += "\n"
         self.stat("accept:" + re.sub(r"[0-9]+", "N", re.sub(r"<[^0-9>]+>|cluster \S+", "_", out.strip())))
-        self.jobs[jid] = {"x": x, "kind": kind, "state": "PENDING", "answer": out}
+        name = job_name_of(path, prog)
+        if re.search(r"\s", name):
+            self.stat("job names with white space")
+        self.jobs[jid] = {"x": x, "kind": kind, "state": "PENDING", "answer": out, "name": name}
         self.order.append(jid)
         self.last["accepted"] = jid
         return Proc(out, 0, text)
 
     def do_local(self, path, text):
-        m = re.match(r"n(\d+)\.", os.path.basename(path))
-        self.last = {"prog": "local", "x": int(m.group(1)) if m else None, "accepted": None, "path": path,
+        self.last = {"prog": "local", "x": _node_in(os.path.basename(path)), "accepted": None, "path": path,
                      "kind": "Restart" if ".restart." in os.path.basename(path) else "Main"}
         pid = int(self.fresh_id())
         if not self.next_sub():
@@ -338,8 +400,8 @@ class Cluster:
         return out
 
     def name_of(self, jid):
-        x = self.jobs.get(jid, {}).get("x")
-        return "n%s" % ("x" if x is None else x)
+        """the job name as submitted (the script's --job-name directive), verbatim"""
+        return self.jobs.get(jid, {}).get("name") or "sbatch"
 
     def plan_slurm(self, q, eff):
         rr = self.rr
@@ -385,7 +447,7 @@ class Cluster:
         rr.shuffle(rows)
         for j, v in rows:
             st = rr.choice(SLURM_SQ[v])
-            nm, us = self.name_of(j)[:8], "builder"
+            nm, us = self.name_of(j)[:8], "builder"          # %.8j cuts at the width, no mark
             lines.append({"lead": " " * max(0, 18 - len(j)),
                           "toks": [[j, " " + " " * max(0, 8 - len(nm))], [nm, " " + " " * max(0, 8 - len(us))],
                                    [us, " " + " " * max(0, 2 - len(st))], [st, ""]]})
@@ -412,7 +474,7 @@ class Cluster:
                 if rr.random() < 0.3:
                     steps.append((j + ".0", "echo", sst))
             for k, (rid, nm, s) in enumerate(steps):
-                nm = nm[:10]
+                nm = nm if len(nm) <= 10 else nm[:9] + "+"      # sacct marks a cut field with '+'
                 tail = more if k == 0 else []
                 salines.append({"toks": [[rid, " " * max(1, 13 - len(rid)) + " " * max(0, 10 - len(nm))],
                                          [nm, " " + " " * max(0, 10 - len(s))], [s, " "]] + tail +
@@ -483,8 +545,8 @@ class Cluster:
 # the real adapters, recording
 # ----------------------------------------------------------------------------
 def _node_of(step):
-    m = re.match(r"n(\d+)$", str(getattr(step, "real_name", "") or getattr(step, "name", "")))
-    return int(m.group(1)) if m else 0
+    x = _node_in(str(getattr(step, "real_name", "") or getattr(step, "name", "")))
+    return 0 if x is None else x
 
 
 def _submitted(step, path, rec, sched):
@@ -571,11 +633,12 @@ class Installed:
         import importlib
         from maestrowf.interfaces import ScriptAdapterFactory
 
-        def sp(cmd, *a, **k):
-            return CL.handle(cmd, True)
+        def sp(cmd, cwd=None, env=None, shell=True, **k):
+            return CL.handle(cmd, True, shell and not isinstance(cmd, list))
 
         def popen(cmd, *a, **k):
-            return CL.handle(cmd, bool(k.get("universal_newlines") or k.get("text") or k.get("encoding")))
+            return CL.handle(cmd, bool(k.get("universal_newlines") or k.get("text") or k.get("encoding")),
+                             bool(k.get("shell")))
 
         self.f = ScriptAdapterFactory.factories
         self.old = {k: self.f.get(k) for k in W}
@@ -621,9 +684,11 @@ def build_dag(nodes, cfg, root, opts):
                          use_tmp=False, dry_run=cfg["dry"])
     dag.add_description("study", "real adapters")
     dag.add_node("_source", None)
+    names = step_names(opts, len(nodes))
+    dag.real_keys = names
     for i, nd in enumerate(nodes):
         st = StudyStep()
-        st.name = "n%d" % i
+        st.name = names[i]
         st.description = "step %d" % i
         launcher = ""
         if nd["scheduled"]:
@@ -639,12 +704,13 @@ def build_dag(nodes, cfg, root, opts):
                 st.run["walltime"] = rr.choice(["00:10:00", "01:00:00", "00:30"])
         st.run["cmd"] = "%secho %d" % (launcher, i)
         st.run["restart"] = "%secho r%d" % (launcher, i) if nd["has_restart"] else ""
-        dag.add_step("n%d" % i, st, os.path.join(root, "n%d" % i), nd["rlimit"])
+        # the graph is keyed by the step's name as Study.stage does; the workspace is the sanitised name
+        dag.add_step(names[i], st, os.path.join(root, "n%d" % i), nd["rlimit"])
         if nd["parents"]:
             for p in nd["parents"]:
-                dag.add_connection("n%d" % p, "n%d" % i)
+                dag.add_connection(names[p], names[i])
         else:
-            dag.add_connection("_source", "n%d" % i)
+            dag.add_connection("_source", names[i])
     dag.set_adapter(batch_block(opts))
     return dag
 
@@ -652,7 +718,7 @@ def build_dag(nodes, cfg, root, opts):
 def rows_of(dag, n, cl):
     rows = []
     for i in range(n):
-        r = dag.values["n%d" % i]
+        r = dag.values[dag.real_keys[i]]
         rows.append([r.status.name, [cl.num.get(str(j), 900 + k) for k, j in enumerate(r.jobid)], r.restarts])
     return rows
 
@@ -895,6 +961,7 @@ def selftest(n, seed, biases=None):
                 dist["real_violation"] += 1
             if c["real"].get("federated"):
                 dist["federated"] += 1
+            dist["names:" + str(c["real"].get("names", "plain"))] += 1
             for k, v in c.get("real_stats", {}).items():
                 dist["cluster " + k] += v
             for p in c["polls"]:
